@@ -6,7 +6,7 @@
      helpers reached from every pair - thorough: also every triple - of lifecycle subroutines). *)
 From Coq Require Import NArith List String Bool.
 From Falco Require Import Base.TablesBase Model.ScopeMask Model.LintTables Model.LintOps Model.TablesDomain Model.InterpAssign.
-From Falco Require Import Gen.ObsVars Gen.ObsOps Gen.ObsCoerce Gen.ObsInferred Gen.KnownGaps.
+From Falco Require Import Gen.ObsVars Gen.ObsOps Gen.ObsCoerce Gen.ObsInferred Gen.ObsIdArgs Gen.KnownGaps.
 Import ListNotations.
 Local Open Scope N_scope.
 Local Open Scope string_scope.
@@ -132,6 +132,49 @@ Proof.
   apply andb_true_iff in C. destruct C as [C C3]. apply andb_true_iff in C. destruct C as [C1 C2].
   split; [apply eqb_prop; exact C1|]. split; [apply eqb_prop; exact C2|].
   intro Hl. exact (limp_or _ _ _ C3 Hl).
+Qed.
+
+(* ================================================================ identifier arguments *)
+Theorem obs_idargs_domain : map (fun r => match r with (fn, i, _, _) => (fn, i) end) obs_idargs = idarg_rows.
+Proof. vm_compute. reflexivity. Qed.
+
+Definition sig_digit (i : N) : string := String (Ascii.ascii_of_N (48 + i)) "".
+Definition idarg_check (r : string * N * N * N) (c : N * string * N) : bool :=
+  match r, c with (fn, i, lint, interp), (p, ident, s) =>
+    limp (N.testbit lint p) (N.testbit interp p) (fun _ => gap_covers "idarg-interp" fn (sig_digit i) p)
+  end.
+
+(* every built-in with an ID-typed argument (and the add statement), the first ID argument drawn from every identifier
+   of idarg_idents (the five HTTP objects as header, header collection and object; declared objects; enumeration
+   identifiers), in each of the nine scopes: what the linter accepts the simulator runs without an error that is
+   attributable to the identifier - it runs, or the baseline cell (the same call with an identifier of the correct kind
+   in the same scope) fails too (a value error of the well-typed call, or no object of that kind in the scope: not
+   decidable from the cell, counted in the evidence) - or the cell is a recorded gap *)
+Theorem lint_sub_interp_idargs : forall fn i lint interp p ident s,
+  In (fn, i, lint, interp) obs_idargs -> In (p, ident, s) idarg_cells ->
+  N.testbit lint p = true ->
+  N.testbit interp p = true \/ gap_covers "idarg-interp" fn (sig_digit i) p = true.
+Proof.
+  assert (H : forallb (fun r => forallb (idarg_check r) idarg_cells) obs_idargs = true) by (vm_cast_no_check (eq_refl true)).
+  intros fn i lint interp p ident s Hr Hc Hl.
+  pose proof (forallb2_lift _ _ _ _ _ H _ _ Hr Hc) as C. unfold idarg_check in C.
+  exact (limp_or _ _ _ C Hl).
+Qed.
+
+(* not vacuous: std.collect on a header of the cached object in vcl_hit (identifier 4 = obj.http.*, scope 2) *)
+Example lint_sub_interp_idargs_witness : exists lint interp,
+  In ("std.collect", 0, lint, interp) obs_idargs /\ In (38, "obj.http.X-Verif-One", 2) idarg_cells /\
+  N.testbit lint 38 = true /\ N.testbit interp 38 = true.
+Proof.
+  destruct (find (fun r => match r with (fn, i, lint, interp) =>
+                    String.eqb fn "std.collect" && N.eqb i 0 && N.testbit (N.land lint interp) 38 end) obs_idargs)
+    as [[[[fn i] lint] interp]|] eqn:E.
+  - pose proof (find_some _ _ E) as [Hin Hb].
+    apply andb_true_iff in Hb. destruct Hb as [Hb Ht]. apply andb_true_iff in Hb. destruct Hb as [Hf Hi].
+    apply String.eqb_eq in Hf. apply N.eqb_eq in Hi. subst fn i.
+    rewrite N.land_spec in Ht. apply andb_true_iff in Ht.
+    exists lint, interp. split; [exact Hin|]. split; [vm_compute; tauto|]. exact Ht.
+  - vm_compute in E. discriminate.
 Qed.
 
 (* ================================================================ scopes by call-graph inference *)
